@@ -1,10 +1,11 @@
 //! One module per claimed property.
 
 pub mod c01;
+pub mod c02;
 
 use crate::kernel::{Check, RunCtx, Stats, Tier, prng};
 
-pub static ALL: &[&'static dyn Check] = &[&c01::C01];
+pub static ALL: &[&'static dyn Check] = &[&c01::C01, &c02::C02];
 
 /// Determinism self-test: every case is planned and executed twice in this process; plans,
 /// findings and the statistics (which include every fault that fired and every probe) must be
